@@ -126,6 +126,8 @@ def check_scan(ev, pattern, NV, full_all, first, spans, ctx=None):
 def evaluate(case):
     if "long_listing" in case:
         return eval_long(case)
+    if "zone_cut" in case:
+        return eval_zone(case)
     ev = Eval()
     L = case["listing"]
     NV = norm_view(L)
@@ -211,8 +213,54 @@ def eval_long(case):
     return ev
 
 
+def eval_zone(case):
+    """One listing with a 64-instruction zone centred on a plausible chunk size; four rules whose (first) occurrence
+    straddles that index (vlib/longlist.py).  Scan laws as everywhere else, plus bool mode for the long rule."""
+    from vlib import longlist
+
+    cut = case["zone_cut"]
+    NV, _ = longlist.zone_listing(cut)
+    text = render(NV)
+    ev = Eval()
+    ev.subcases = 0
+    only = case.get("rules")
+    for name, pattern in longlist.zone_rules().items():
+        if only and name not in only:
+            continue
+        spans = longlist.zone_spans(cut, name)
+        combos = [("list", "all", False), ("list", "first", False)] + ([("bool", "first", False)] if name == "long" else [])
+        res = run_all_modes(jasm_io.make_doc(pattern), text, None, combos=combos)
+        ev.subcases += len(combos)
+        if all(r[0] == "ok" for r in res.values()):
+            check_scan(ev, pattern, NV, res[("list", "all", False)][1], res[("list", "first", False)][1], spans, ctx={"zone_cut": cut, "rule": name})
+            if name == "long" and res[("bool", "first", False)][1] is not True:
+                ev.dev("verdict", mode="bool", expected=True, observed=res[("bool", "first", False)][1], zone_cut=cut, rule=name)
+        elif any(r[0] == "exc" for r in res.values()):
+            ev.dev("exception", zone_cut=cut, rule=name, error=[list(r[:2]) for r in res.values()])
+        else:
+            ev.inconclusive += 1
+    ev.tags = ["zone-listing"]
+    ev.nontrivial = True
+    ev.keys = [("zone", cut)]
+    return ev
+
+
+def _zone_worker(cut):
+    case = {"zone_cut": cut}
+    return case, eval_zone(case)
+
+
 def extra(tier, seed, rep):
-    """Long listings: occurrences at and around multiples of 32768 instructions (a chunked scan would lose them)."""
+    """Long listings: occurrences at and around multiples of 32768 instructions (a chunked scan would lose them); zone
+    listings for every plausible chunk size."""
+    import multiprocessing as mp
+    from vlib import longlist
+
+    with mp.get_context("fork").Pool(16, maxtasksperchild=1) as pool:
+        for case, ev in pool.imap_unordered(_zone_worker, sorted(longlist.CUTS, reverse=True), chunksize=1):
+            rep.add_eval(case, ev)
+    rep.extra["zone_cuts"] = longlist.CUTS
+    rep.exhaustive_parts.append(f"zone listings: all {len(longlist.CUTS)} chunk-size candidates x 4 straddling rules")
     import random
 
     rnd = random.Random(seed)  # a pure function of VERIF_SEED; only picks positions inside this fixed family
